@@ -49,7 +49,50 @@ def interm(hdr, x, y):
     return (cd[0][0] * dx + cd[0][1] * dy, cd[1][0] * dx + cd[1][1] * dy)
 
 
+def mk_pil(interp, arr, name="pil"):
+    """a PIL image object: identified with the array that ``np.asarray`` makes of it"""
+    p = Opaque("pil", fresh_name(name))
+    p.attrs["_g_array"] = arr
+    p.attrs["height"], p.attrs["width"] = arr.shape[0], arr.shape[1]
+    return p
+
+
+def observed_array(interp, img):
+    """what ``Image.asarray()`` returns for this object state (the cached array if there is one, else the PIL data)"""
+    a = img.fields.get("_array")
+    if a is not None:
+        return a
+    return img.fields["_pil"].attrs["_g_array"]
+
+
 def install_externals(X):
+    prev_asarray = X.calls.get("numpy.asarray")
+
+    @X.register("numpy.asarray")
+    def _(interp, args, kwargs):
+        if args and isinstance(args[0], Opaque) and args[0].kind == "pil":
+            interp.note_assumption("np.asarray(PIL image) is the image's pixel array; Image.transpose(FLIP_TOP_BOTTOM) reverses its rows")
+            return args[0].attrs["_g_array"]
+        if prev_asarray is not None:
+            return prev_asarray(interp, args, kwargs)
+        from pyvc.ndarray import NdArr
+        if args and isinstance(args[0], NdArr) and not kwargs:
+            return args[0]
+        raise OutOfSubset("np.asarray of %r" % (args[:1],))
+
+    @X.register_opaque("pil", "getbands")
+    def _(interp, p, args, kwargs):
+        a = p.attrs["_g_array"]
+        return tuple("band%d" % k for k in range(a.shape[2] if a.ndim == 3 else 1))
+
+    @X.register_opaque("pil", "transpose")
+    def _(interp, p, args, kwargs):
+        how = args[0] if args else None
+        if not (getattr(how, "name", "") or "").endswith("FLIP_TOP_BOTTOM"):
+            raise OutOfSubset("PIL transpose(%r)" % (how,))
+        from pyvc.values import SliceVal
+        return mk_pil(interp, interp.getitem(p.attrs["_g_array"], SliceVal(None, None, -1)), "pil_flipped")
+
     @X.register_opaque("wcs", "to_header")
     def _(interp, w, args, kwargs):
         interp.note_assumption("astropy WCS.to_header() of a linear celestial WCS returns CDELT/PC (PC cards omitted when default) "
@@ -136,6 +179,8 @@ def _(c):
 # ---- Image / ImageDescription: rows reversed with the WCS; ensure_negative_parity ----
 
 OBJ_CASES = [{"pcs": p, "kind": k, "mode": "F32"} for p in (True, False) for k in ("Image", "ImageDescription")]
+# images backed by a PIL object, with and without the array cache that asarray() fills
+OBJ_CASES += [{"pcs": True, "kind": "Image", "mode": "RGB", "backing": "pil", "cached": cch} for cch in (False, True)]
 # descriptions of colour images carry the planes as a third axis of `shape` (rows stay the FIRST axis)
 OBJ_CASES += [{"pcs": p, "kind": "ImageDescription", "mode": "RGB", "planes": 3} for p in (True, False)]
 
@@ -146,8 +191,12 @@ def obj_setup(interp, path):
     path.assume(z3.And(H >= 1, W >= 1))
     wcs = mk_wcs(interp, "wcs", case["pcs"])
     if case["kind"] == "Image":
-        me = mk_image(interp, "image", "F32", H, W)
+        me = mk_image(interp, "image", case.get("mode", "F32"), H, W)
         me.fields["_wcs"] = wcs
+        if case.get("backing") == "pil":
+            me.fields["_pil"] = mk_pil(interp, me.fields["_array"])
+            if not case["cached"]:
+                me.fields["_array"] = None
     else:
         me = Inst("ImageDescription", module="toasty.image", fields={"mode": None, "shape": (H, W) + ((case["planes"],) if case.get("planes") else ()), "wcs": wcs})
     return {"self": me}
@@ -158,7 +207,7 @@ def _wcs_of(obj):
 
 
 def _height_of(obj):
-    return _arr(obj).shape[0] if obj.cls == "Image" else obj.fields["shape"][0]
+    return observed_array(None, obj).shape[0] if obj.cls == "Image" else obj.fields["shape"][0]
 
 
 def flip_obj_trace(m, path, fr, env, outcome, value, exc):
@@ -172,11 +221,13 @@ def flip_obj_trace(m, path, fr, env, outcome, value, exc):
     path.oblige(m.oblname("wcs_reflected_about_this_images_height"), g if not isinstance(g, bool) else z3.BoolVal(g), kind="trace", assume_after=False)
     path.oblige(m.oblname("returns_self"), z3.BoolVal(value is new), kind="trace", assume_after=False)
     if old.cls == "Image":
-        H = _arr(old).shape[0]
+        # observed through Image.asarray(), as the property says: the cached array if any, else the PIL data
+        a_old, a_new = observed_array(m, old), observed_array(m, new)
+        H = a_old.shape[0]
         r, c_ = z3.Int(fresh_name("r")), z3.Int(fresh_name("c"))
         saved = list(path.pc)
-        path.assume(z3.And(r >= 0, r < z3num(H), c_ >= 0, c_ < z3num(_arr(old).shape[1])))
-        path.oblige(m.oblname("rows_are_reversed"), im.pix_same(m, new, r, c_, old, simp(z3num(H) - 1 - r), c_), kind="trace", assume_after=False)
+        path.assume(z3.And(r >= 0, r < z3num(H), c_ >= 0, c_ < z3num(a_old.shape[1])))
+        path.oblige(m.oblname("rows_are_reversed"), im.pix_same(m, a_new, r, c_, a_old, simp(z3num(H) - 1 - r), c_), kind="trace", assume_after=False)
         path.pc[:] = saved
 
 
